@@ -423,7 +423,7 @@ MANDATORY = {
     ],
     'C07': [
         ('transform::Transform::run', r'Transform::make_args$', 0, 'building the argument vector', (), ()),
-        ('transform::build_command', r'Input::prepare_input_file$', 0, 'preparing the private input copy before the program is started', (), ()),
+        ('transform::build_command', r'Input::prepare_input_file$|^std::fs::copy$', 0, 'preparing the private input copy before the program is started', (), (r'&transform::Input$',)),
     ],
     'C04': [
         ('bin::run_dedupe', r'(^|::)dedupe::dedupe$|^fclones::dedupe$', 0, 'generating the script from the (validated) report', ('rf_over',), (r'Option.*::is_none$',)),
